@@ -215,6 +215,38 @@ func runC08(c *eng.Ctx) {
 			c.Ob("CODEC-ttl", "bytes"+k, wm[k] == rm[k] && wm[k] != "", wf.Pos(), fmt.Sprintf("ToBytes stores %q, LoadTTLFromBytes loads %q", wm[k], rm[k]))
 		}
 	}
+	// "no TTL" is identified by the pointer EMPTY_TTL throughout the system (n.Ttl == EMPTY_TTL, v.Ttl != EMPTY_TTL): the
+	// decoder must hand out that very value for the all-zero encoding, a fresh TTL only when some byte is non-zero
+	if rf := c.NeedFunc("weed/storage/needle", "LoadTTLFromBytes"); rf != nil {
+		zeroByte := eng.Cmp(func(v ssa.Value) bool {
+			u, ok := v.(*ssa.UnOp)
+			if !ok || u.Op != token.MUL {
+				return false
+			}
+			ia, ok := u.X.(*ssa.IndexAddr)
+			return ok && eng.IsParam(ia.X, "input")
+		}, func(v ssa.Value) bool { k, ok := eng.ConstInt(v); return ok && k == 0 }, token.EQL)
+		var fresh []ssa.Instruction
+		for _, in := range eng.Find(rf, func(in ssa.Instruction) bool { a, ok := in.(*ssa.Alloc); return ok && a.Heap && eng.TypeName(a.Type()) == "TTL" }) {
+			fresh = append(fresh, in)
+		}
+		if len(fresh) == 0 {
+			c.Undecided("CODEC-ttl", "empty-ttl-identity", rf.Pos(), "no TTL allocation found in LoadTTLFromBytes")
+		}
+		c.Guard("CODEC-ttl", "empty-ttl-identity", rf, eng.Entry(rf), fresh, eng.FailEdges(rf, zeroByte),
+			"a fresh TTL value is built only when a stored byte is non-zero; the all-zero encoding decodes to the EMPTY_TTL value the rest of the system compares against")
+		sentinel := false
+		for _, r := range eng.Find(rf, eng.IsReturn) {
+			for _, v := range eng.ResolveFrom(r.(*ssa.Return).Results[0], r) {
+				if u, ok := v.(*ssa.UnOp); ok && u.Op == token.MUL {
+					if g, isG := u.X.(*ssa.Global); isG && g.Name() == "EMPTY_TTL" {
+						sentinel = true
+					}
+				}
+			}
+		}
+		c.Ob("CODEC-ttl", "empty-ttl-returned", sentinel, rf.Pos(), "LoadTTLFromBytes can return EMPTY_TTL")
+	}
 	if wf, rf := c.NeedFunc("weed/storage/needle", "(*TTL).ToUint32"), c.NeedFunc("weed/storage/needle", "LoadTTLFromUint32"); wf != nil && rf != nil {
 		// writer: field << shift ; reader: input[i] = byte(ttl >> shift) and input -> LoadTTLFromBytes (i=0 count, i=1 unit)
 		wsh := map[string]int64{}
@@ -418,6 +450,48 @@ func runC08(c *eng.Ctx) {
 			k := fmt.Sprintf("[%d:%d]", i, i+1)
 			c.Ob("CODEC-idx", "offset-byte"+k, wm[k] == rm[k] && wm[k] != "", wf.Pos(), fmt.Sprintf("OffsetToBytes stores %q, BytesToOffset loads %q", wm[k], rm[k]))
 		}
+	}
+
+	// ---------------- (4b) the "_<n>" suffix of a file id: writers and the reader use the same number base
+	if rf := c.NeedFunc("weed/storage/needle", "(*Needle).ParsePath"); rf != nil {
+		rbase := int64(-1)
+		nr := 0
+		for _, in := range eng.Find(rf, eng.PlainCallTo("strconv.ParseUint", "strconv.ParseInt", "strconv.Atoi")) {
+			nr++
+			rbase = 10
+			if !eng.CalleeIs(in.(*ssa.Call), "strconv.Atoi") {
+				rbase, _ = eng.ConstInt(in.(*ssa.Call).Call.Args[1])
+			}
+		}
+		if nr != 1 {
+			c.Undecided("CODEC-fid-delta", "reader", rf.Pos(), fmt.Sprintf("expected one numeric parse of the suffix in ParsePath, found %d", nr))
+		}
+		nw := 0
+		for _, top := range P.SrcFuncs("weed/operation") {
+			for _, in := range eng.Find(top, func(in ssa.Instruction) bool { b, ok := in.(*ssa.BinOp); return ok && b.Op == token.ADD }) {
+				b := in.(*ssa.BinOp)
+				sep := b.X
+				if inner, ok := b.X.(*ssa.BinOp); ok && inner.Op == token.ADD {
+					sep = inner.Y // (fid + "_") + n
+				}
+				if k, ok := eng.ConstString(sep); !ok || k != "_" {
+					continue
+				}
+				call, ok := eng.Unwrap(b.Y).(*ssa.Call)
+				if !ok || !eng.CalleeIs(call, "strconv.Itoa", "strconv.FormatInt", "strconv.FormatUint") {
+					continue
+				}
+				wbase := int64(10)
+				if !eng.CalleeIs(call, "strconv.Itoa") {
+					wbase, _ = eng.ConstInt(call.Call.Args[1])
+				}
+				nw++
+				c.Touch(top)
+				c.Ob("CODEC-fid-delta", fmt.Sprintf("%s suffix-writer#%d", eng.FuncName(top), nw), nr == 1 && wbase == rbase, in.Pos(),
+					fmt.Sprintf("the client writes the file id suffix in base %d, Needle.ParsePath reads it in base %d", wbase, rbase))
+			}
+		}
+		c.Expect("CODEC-fid-delta", 2)
 	}
 
 	// ---------------- (5) NARROW
